@@ -29,7 +29,7 @@ inductive Path
 abbrev Doc := List String
 
 inductive Text
-  | ver (v : Nat)
+  | ver (v : String)
   | doc (d : Doc)
   deriving DecidableEq, Repr
 
@@ -49,8 +49,10 @@ def FS.set (fs : FS) (p : Path) (f : File) : FS :=
 /-- an empty home directory: no `~/.evo` -/
 def FS.fresh : FS := ⟨false, fun _ => .absent⟩
 
-/-- version number of the running evo (`__version__`); any other number is "an older version" -/
-def current : Nat := 1
+/-- `__version__` of the running evo (regenerated from evo/__init__.py).  `update_if_outdated` compares the
+*string* stored in assets_version with it for equality: every other string — older, newer, lexicographically
+larger ("v1.9.0"), with trailing white space, empty — counts as outdated. -/
+def current : String := Evo.Gen.evoVersion
 
 def hasDefaults (d : Doc) : Bool := Evo.Gen.defaultKeys.all (fun k => d.contains k)
 
